@@ -1,7 +1,8 @@
 // I/O environment models: writers/readers that cannot fail unless failure is the subject.
 
-/// `io::Write` over a fixed array that cannot fail (capacity is assumed, i.e. runs that would
-/// overflow N are outside the claim; N is always chosen >= the maximal encoding size of the harness).
+/// `io::Write` over a fixed array that cannot fail. N is chosen well above the largest legitimate output
+/// of the harness; writing more than N bytes is an ASSERTION failure (an `assume` here would silently discard
+/// exactly the runs in which the code under test emits too much: seeded change C08_m1 slipped through that way).
 pub(crate) struct FixedBuf<const N: usize> {
 	pub(crate) buf: [u8; N],
 	pub(crate) len: usize,
@@ -16,7 +17,7 @@ impl<const N: usize> FixedBuf<N> {
 }
 impl<const N: usize> std::io::Write for FixedBuf<N> {
 	fn write(&mut self, data: &[u8]) -> std::io::Result<usize> {
-		kani::assume(self.len + data.len() <= N);
+		assert!(self.len + data.len() <= N, "verif: output exceeds the harness buffer (longer than any valid output)");
 		let mut i = 0;
 		while i < data.len() {
 			self.buf[self.len + i] = data[i];
@@ -26,7 +27,7 @@ impl<const N: usize> std::io::Write for FixedBuf<N> {
 		Ok(data.len())
 	}
 	fn write_all(&mut self, data: &[u8]) -> std::io::Result<()> {
-		kani::assume(self.len + data.len() <= N);
+		assert!(self.len + data.len() <= N, "verif: output exceeds the harness buffer (longer than any valid output)");
 		let mut i = 0;
 		while i < data.len() {
 			self.buf[self.len + i] = data[i];
